@@ -263,21 +263,46 @@ def control_dependence(cfg):
                 if x not in pd[a.id] or x == a.id:
                     cd[x].append((a, kind))
     return cd
+_guard_cache = {}
 def guards_of(cfg, cd, ast_node):
-    """[(test AST, polarity)] of branch conditions the statement containing ast_node is control dependent on, transitively"""
+    """[(test AST, polarity)] of the branch decisions that are NECESSARY for the statement containing ast_node to execute:
+    a condition node c with outcome p is listed iff (in the flow graph without exception, back and continue edges) every path
+    from the entry to the statement passes c, and the statement is reachable from c's p-successor but not from the other one.
+    (Control dependence alone is not enough: after `if a: if b: raise` the following statement depends on the edges (a,F) and
+    (b,F), but neither `not a` nor `not b` holds on every path that reaches it.)  Innermost decisions first."""
     target = None
     for n in cfg.nodes:
         if n.ast is not None and any(x is ast_node for x in ast.walk(n.ast)) and n.kind not in ("def",):
             if target is None or len(ast.unparse(n.ast)) < len(ast.unparse(target.ast)): target = n
     if target is None: return None
-    out = []; seen = set(); work = [target.id]
+    key = (id(cfg), target.id)
+    if key in _guard_cache: return list(_guard_cache[key])
+    skip = ("exc", "back", "cont")
+    succ = {n.id: [(k, m.id) for k, m in n.succ if k not in skip] for n in cfg.nodes}
+    pred = {n.id: [] for n in cfg.nodes}
+    for a, lst in succ.items():
+        for k, b in lst: pred[b].append(a)
+    # nodes from which the target is reachable
+    R = {target.id}; work = [target.id]
     while work:
-        i = work.pop()
-        for cond, kind in cd.get(i, []):
-            if cond.kind == "cond" and kind in ("T", "F"):
-                key = (cond.id, kind)
-                if key not in seen:
-                    seen.add(key); out.append((cond.ast, kind == "T")); work.append(cond.id)
-            elif cond.kind == "loop":
-                if cond.id not in seen: seen.add(cond.id); work.append(cond.id)
+        x = work.pop()
+        for p in pred[x]:
+            if p not in R: R.add(p); work.append(p)
+    def reach_avoiding(c):
+        """is the target reachable from the entry without passing node c?"""
+        if cfg.entry.id == c: return False
+        seen = {cfg.entry.id}; w = [cfg.entry.id]
+        while w:
+            x = w.pop()
+            if x == target.id: return True
+            for _k, m in succ[x]:
+                if m != c and m not in seen and m in R: seen.add(m); w.append(m)
+        return False
+    out = []
+    for c in sorted((n for n in cfg.nodes if n.kind == "cond" and n.id in R and n.id != target.id), key=lambda n: -n.id):
+        rt = any(k == "T" and m in R for k, m in succ[c.id]); rf = any(k == "F" and m in R for k, m in succ[c.id])
+        if rt == rf: continue
+        if reach_avoiding(c.id): continue
+        out.append((c.ast, rt))
+    _guard_cache[key] = list(out)
     return out
